@@ -1,75 +1,79 @@
 package main
 
-// FsGen: what the hand models of C19/C20 (coq/Fsx) transcribe from the source, extracted
-// SEMANTICALLY where that is cheap: comparisons as (smaller side, operator, larger side)
-// with conversions and parentheses removed, additive constants as numbers, shift amounts
-// and mask widths evaluated to numbers (through the package's constants), structural facts
-// as booleans (the localfs Readdir rewinds before its loop; cursor++ precedes the skip test;
-// every function touching Mapper.paths starts with m.mu.Lock(); defer m.mu.Unlock(); the
-// fallback table is keyed by a devino value).  Source text is kept only for two bodies whose
-// statement order is itself the content (Mapper.QIDFor, localToQid); it is rendered by
-// go/printer and white-space normalised, so re-formatting does not change it.
-// coq/Fsx/FsGenSpec19.v, FsGenSpec20.v states the obligations over these definitions.
+// FsGen19 / FsGen20: what the hand models of C19/C20 (coq/Fsx) transcribe from the source,
+// extracted SEMANTICALLY:
+//   * variables are identified by their ROLE (parameter position, "the variable that is
+//     incremented in the loop", "the result of info()", "the value built from unix.Major") and
+//     printed under a canonical role name, every other local under alpha.go's positional name:
+//     renaming a local, parameter or receiver does not change the tables;
+//   * comparisons are normalised to (smaller side, operator, larger side) with widening
+//     conversions and parentheses removed; additive constants, shift amounts, mask widths and
+//     mode bits are evaluated to numbers; structural facts are booleans (the localfs Readdir
+//     rewinds unconditionally before its loop; the QID returned by info() reaches Readdir's
+//     entry, Walk's result and GetAttr's result unmodified; every function touching Mapper.paths
+//     is one m.mu.Lock() ... deferred Unlock section; the fallback table is keyed by a devino value);
+//   * ModeFromOS / OSMode / QIDType are read as decision tables of numbers.
+// Source text (alpha-normalised, go/printer, white space collapsed) remains only for the
+// statement sequences of Mapper.QIDFor and localToQid, whose order is their content.
+// coq/Fsx/FsGenSpec19.v and FsGenSpec20.v state the obligations.  Two generators, so that a
+// refusal in one part leaves the other property's tables intact.
 
 import (
-	"bytes"
 	"fmt"
 	"go/ast"
-	"go/printer"
 	"go/token"
+	"math/big"
 	"sort"
 	"strings"
 )
 
-func fsRender(r *Repo, n ast.Node) string {
-	var b bytes.Buffer
-	printer.Fprint(&b, r.Fset, n)
-	return strings.Join(strings.Fields(b.String()), " ")
+// ---------------------------------------------------------------- rendering
+
+// fsCtx: the function being read, role names for some of its locals.
+type fsCtx struct {
+	r     *Repo
+	fd    *ast.FuncDecl
+	roles map[string]string // local name -> role name
+	alpha map[string]string // local name -> positional name
 }
 
-// conversions that cannot lose bits of the values they are applied to in this code (widening to the 64-bit types);
-// narrowing ones (uint32(x), uint16(x), ...) change the value and are kept.
-var fsConvTypes = map[string]bool{"int": true, "int64": true, "uint": true, "uint64": true}
+func newFsCtx(r *Repo, fd *ast.FuncDecl) *fsCtx {
+	return &fsCtx{r: r, fd: fd, roles: map[string]string{}, alpha: LocalNames(fd)}
+}
 
-// fsSem renders an expression canonically: numeric conversions and parentheses dropped,
-// every binary expression fully parenthesised.
-func fsSem(r *Repo, x ast.Expr) string {
-	switch v := x.(type) {
-	case *ast.Ident:
-		return v.Name
-	case *ast.BasicLit:
-		return v.Value
-	case *ast.ParenExpr:
-		return fsSem(r, v.X)
-	case *ast.SelectorExpr:
-		return fsSem(r, v.X) + "." + v.Sel.Name
-	case *ast.UnaryExpr:
-		return v.Op.String() + fsSem(r, v.X)
-	case *ast.BinaryExpr:
-		return "(" + fsSem(r, v.X) + " " + v.Op.String() + " " + fsSem(r, v.Y) + ")"
-	case *ast.IndexExpr:
-		return fsSem(r, v.X) + "[" + fsSem(r, v.Index) + "]"
-	case *ast.SliceExpr:
-		lo, hi := "", ""
-		if v.Low != nil {
-			lo = fsSem(r, v.Low)
-		}
-		if v.High != nil {
-			hi = fsSem(r, v.High)
-		}
-		return fsSem(r, v.X) + "[" + lo + ":" + hi + "]"
-	case *ast.CallExpr:
-		if id, ok := v.Fun.(*ast.Ident); ok && fsConvTypes[id.Name] && len(v.Args) == 1 {
-			return fsSem(r, v.Args[0])
-		}
-		var as []string
-		for _, a := range v.Args {
-			as = append(as, fsSem(r, a))
-		}
-		return fsSem(r, v.Fun) + "(" + strings.Join(as, ", ") + ")"
+func (c *fsCtx) name(id string) string {
+	if v, ok := c.roles[id]; ok {
+		return v
 	}
-	return fsRender(r, x)
+	if v, ok := c.alpha[id]; ok {
+		return v
+	}
+	return id
 }
+
+// params gives role names to receiver and parameters by position.
+func (c *fsCtx) params(recv string, ps ...string) {
+	if c.fd.Recv != nil && recv != "" {
+		for _, f := range c.fd.Recv.List {
+			for _, n := range f.Names {
+				c.roles[n.Name] = recv
+			}
+		}
+	}
+	i := 0
+	for _, f := range c.fd.Type.Params.List {
+		for _, n := range f.Names {
+			if i < len(ps) && n.Name != "_" {
+				c.roles[n.Name] = ps[i]
+			}
+			i++
+		}
+	}
+}
+
+// conversions that cannot lose bits of the values they are applied to in this code (widening to
+// the 64-bit types); narrowing ones (uint32(x), ...) change the value and are kept.
+var fsConvTypes = map[string]bool{"int": true, "int64": true, "uint": true, "uint64": true}
 
 func fsUnparen(x ast.Expr) ast.Expr {
 	for {
@@ -87,28 +91,136 @@ func fsUnparen(x ast.Expr) ast.Expr {
 	}
 }
 
-// fsCmp normalises a comparison to (a, op, b) with op one of < <= == != :  a > b becomes b < a.
-func fsCmp(r *Repo, x ast.Expr) (string, string, string, error) {
-	b, ok := fsUnparen(x).(*ast.BinaryExpr)
-	if !ok {
-		return "", "", "", r.Refuse(x.Pos(), "expected a comparison, found %s", fsRender(r, x))
+// sem renders an expression canonically: widening conversions and parentheses dropped, binary
+// expressions fully parenthesised, locals under role / positional names.
+func (c *fsCtx) sem(x ast.Expr) string {
+	switch v := x.(type) {
+	case nil:
+		return ""
+	case *ast.Ident:
+		return c.name(v.Name)
+	case *ast.BasicLit:
+		return v.Value
+	case *ast.ParenExpr:
+		return c.sem(v.X)
+	case *ast.SelectorExpr:
+		return c.sem(v.X) + "." + v.Sel.Name
+	case *ast.StarExpr:
+		return "*" + c.sem(v.X)
+	case *ast.UnaryExpr:
+		return v.Op.String() + c.sem(v.X)
+	case *ast.BinaryExpr:
+		return "(" + c.sem(v.X) + " " + v.Op.String() + " " + c.sem(v.Y) + ")"
+	case *ast.IndexExpr:
+		return c.sem(v.X) + "[" + c.sem(v.Index) + "]"
+	case *ast.SliceExpr:
+		return c.sem(v.X) + "[" + c.sem(v.Low) + ":" + c.sem(v.High) + "]"
+	case *ast.TypeAssertExpr:
+		return c.sem(v.X) + ".(" + c.sem(v.Type) + ")"
+	case *ast.CompositeLit:
+		var es []string
+		for _, e := range v.Elts {
+			if kv, ok := e.(*ast.KeyValueExpr); ok {
+				es = append(es, fsText(kv.Key)+": "+c.sem(kv.Value))
+			} else {
+				es = append(es, c.sem(e))
+			}
+		}
+		return c.sem(v.Type) + "{" + strings.Join(es, ", ") + "}"
+	case *ast.CallExpr:
+		if id, ok := v.Fun.(*ast.Ident); ok && fsConvTypes[id.Name] && len(v.Args) == 1 {
+			return c.sem(v.Args[0])
+		}
+		var as []string
+		for _, a := range v.Args {
+			as = append(as, c.sem(a))
+		}
+		return c.sem(v.Fun) + "(" + strings.Join(as, ", ") + ")"
 	}
-	l, rr := fsSem(r, b.X), fsSem(r, b.Y)
-	switch b.Op {
-	case token.LSS, token.LEQ, token.EQL, token.NEQ:
-		return l, b.Op.String(), rr, nil
-	case token.GTR:
-		return rr, "<", l, nil
-	case token.GEQ:
-		return rr, "<=", l, nil
-	}
-	return "", "", "", r.Refuse(x.Pos(), "expected a comparison, found operator %s", b.Op)
+	return strings.Join(strings.Fields(AlphaPrint(c.r.Fset, c.fd, x)), " ")
 }
 
-// fsSum flattens a chain of + into its non-literal terms (sorted) and the sum of its integer literals.
-func fsSum(r *Repo, e *constEnv, x ast.Expr) ([]string, string, error) {
+// text: a statement, alpha-normalised and white-space collapsed.
+func (c *fsCtx) text(n ast.Node) string {
+	return strings.Join(strings.Fields(AlphaPrint(c.r.Fset, c.fd, n)), " ")
+}
+
+// fsText: identifier / selector chain as written (for non-local names: fields, packages, callees).
+func fsText(x ast.Expr) string {
+	switch v := x.(type) {
+	case *ast.Ident:
+		return v.Name
+	case *ast.SelectorExpr:
+		return fsText(v.X) + "." + v.Sel.Name
+	}
+	return "?"
+}
+
+// fsFields: the selector path of x without its root identifier: l.file -> ".file", m.g.uids -> ".g.uids".
+func fsFields(x ast.Expr) string {
+	if s, ok := x.(*ast.SelectorExpr); ok {
+		return fsFields(s.X) + "." + s.Sel.Name
+	}
+	return ""
+}
+
+// fsMethodCall: x is a call <root>.<fields>.<name>(...), whatever the root is called.
+func fsMethodCall(x ast.Expr, fields, name string) (*ast.CallExpr, bool) {
+	c, ok := x.(*ast.CallExpr)
+	if !ok {
+		return nil, false
+	}
+	s, ok := c.Fun.(*ast.SelectorExpr)
+	if !ok || s.Sel.Name != name || fsFields(s.X) != fields {
+		return nil, false
+	}
+	if _, isIdent := rootOf(s.X).(*ast.Ident); !isIdent {
+		return nil, false
+	}
+	return c, true
+}
+
+func rootOf(x ast.Expr) ast.Expr {
+	for {
+		s, ok := x.(*ast.SelectorExpr)
+		if !ok {
+			return x
+		}
+		x = s.X
+	}
+}
+
+// fsPkgCall: x is a call of the package-level function or method value written exactly `callee`.
+func fsPkgCall(x ast.Expr, callee string) (*ast.CallExpr, bool) {
+	c, ok := x.(*ast.CallExpr)
+	if !ok || fsText(c.Fun) != callee {
+		return nil, false
+	}
+	return c, true
+}
+
+// cmp normalises a comparison to (a, op, b) with op one of < <= == != :  a > b becomes b < a.
+func (c *fsCtx) cmp(x ast.Expr) ([3]string, error) {
+	b, ok := fsUnparen(x).(*ast.BinaryExpr)
+	if !ok {
+		return [3]string{}, c.r.Refuse(x.Pos(), "expected a comparison, found %s", c.text(x))
+	}
+	l, rr := c.sem(b.X), c.sem(b.Y)
+	switch b.Op {
+	case token.LSS, token.LEQ, token.EQL, token.NEQ:
+		return [3]string{l, b.Op.String(), rr}, nil
+	case token.GTR:
+		return [3]string{rr, "<", l}, nil
+	case token.GEQ:
+		return [3]string{rr, "<=", l}, nil
+	}
+	return [3]string{}, c.r.Refuse(x.Pos(), "expected a comparison, found %s", c.text(x))
+}
+
+// sum flattens a chain of + into its non-literal terms (sorted) and the sum of its integer literals.
+func (c *fsCtx) sum(e *constEnv, x ast.Expr) ([]string, string, error) {
 	var terms []string
-	total := int64(0)
+	total := new(big.Int)
 	var walk func(x ast.Expr) error
 	walk = func(x ast.Expr) error {
 		x = fsUnparen(x)
@@ -120,20 +232,20 @@ func fsSum(r *Repo, e *constEnv, x ast.Expr) ([]string, string, error) {
 		}
 		if _, ok := x.(*ast.BasicLit); ok {
 			n, _, ok := e.eval(x, 0)
-			if !ok || n == nil || !n.IsInt64() {
-				return r.Refuse(x.Pos(), "integer literal expected")
+			if !ok || n == nil {
+				return c.r.Refuse(x.Pos(), "integer literal expected")
 			}
-			total += n.Int64()
+			total.Add(total, n)
 			return nil
 		}
-		terms = append(terms, fsSem(r, x))
+		terms = append(terms, c.sem(x))
 		return nil
 	}
 	if err := walk(x); err != nil {
 		return nil, "", err
 	}
 	sort.Strings(terms)
-	return terms, fmt.Sprint(total), nil
+	return terms, total.String(), nil
 }
 
 func fsFuncIn(r *Repo, dir, file, name string) (*ast.FuncDecl, error) {
@@ -165,65 +277,118 @@ func fsFunc(r *Repo, dir, key string) (*ast.FuncDecl, error) {
 	return fd, nil
 }
 
-// fsDirentField finds the value given to a field in the (only) p9.Dirent composite literal below n.
-func fsDirentField(r *Repo, n ast.Node, field string) (ast.Expr, error) {
-	var vals []ast.Expr
-	lits := 0
+// fsDirent finds the (only) p9.Dirent composite literal below n and returns its fields.
+func fsDirent(r *Repo, n ast.Node) (map[string]ast.Expr, error) {
+	var found []*ast.CompositeLit
 	ast.Inspect(n, func(x ast.Node) bool {
-		cl, ok := x.(*ast.CompositeLit)
+		if cl, ok := x.(*ast.CompositeLit); ok {
+			if sel, ok := cl.Type.(*ast.SelectorExpr); ok && sel.Sel.Name == "Dirent" {
+				found = append(found, cl)
+			}
+		}
+		return true
+	})
+	if len(found) != 1 {
+		return nil, r.Refuse(n.Pos(), "expected exactly one p9.Dirent literal, found %d", len(found))
+	}
+	m := map[string]ast.Expr{}
+	for _, e := range found[0].Elts {
+		kv, ok := e.(*ast.KeyValueExpr)
 		if !ok {
-			return true
+			return nil, r.Refuse(e.Pos(), "p9.Dirent literal without field names")
 		}
-		if sel, ok := cl.Type.(*ast.SelectorExpr); !ok || sel.Sel.Name != "Dirent" {
-			return true
+		m[fsText(kv.Key)] = kv.Value
+	}
+	for _, f := range []string{"QID", "Type", "Offset", "Name"} {
+		if m[f] == nil {
+			return nil, r.Refuse(found[0].Pos(), "p9.Dirent literal lacks %s", f)
 		}
-		lits++
-		for _, e := range cl.Elts {
-			if kv, ok := e.(*ast.KeyValueExpr); ok {
-				if id, ok := kv.Key.(*ast.Ident); ok && id.Name == field {
-					vals = append(vals, kv.Value)
+	}
+	return m, nil
+}
+
+// fsDefOf: the right-hand side of the first `name := rhs` / `var name = rhs` in body.
+func fsDefOf(body ast.Node, name string) ast.Expr {
+	var rhs ast.Expr
+	if name == "" {
+		return nil
+	}
+	ast.Inspect(body, func(x ast.Node) bool {
+		switch s := x.(type) {
+		case *ast.AssignStmt:
+			if s.Tok == token.DEFINE && len(s.Rhs) == 1 {
+				for _, l := range s.Lhs {
+					if fsText(l) == name && rhs == nil {
+						rhs = s.Rhs[0]
+					}
+				}
+			}
+		case *ast.ValueSpec:
+			for i, n := range s.Names {
+				if n.Name == name && i < len(s.Values) && rhs == nil {
+					rhs = s.Values[i]
 				}
 			}
 		}
 		return true
 	})
-	if lits != 1 || len(vals) != 1 {
-		return nil, r.Refuse(n.Pos(), "expected one p9.Dirent literal with field %s (found %d literals, %d values)", field, lits, len(vals))
-	}
-	return vals[0], nil
+	return rhs
 }
 
-func fsExprText(x ast.Expr) string {
-	switch v := x.(type) {
-	case *ast.Ident:
-		return v.Name
-	case *ast.SelectorExpr:
-		return fsExprText(v.X) + "." + v.Sel.Name
+// fsWrites counts the statements in body that change variable `name` or a part of it after its
+// definition: assignments to it, to a field/element of it, ++/--, or taking its address.
+func fsWrites(body ast.Node, name string) int {
+	root := func(x ast.Expr) string {
+		for {
+			switch v := x.(type) {
+			case *ast.SelectorExpr:
+				x = v.X
+			case *ast.IndexExpr:
+				x = v.X
+			case *ast.ParenExpr:
+				x = v.X
+			case *ast.StarExpr:
+				x = v.X
+			case *ast.Ident:
+				return v.Name
+			default:
+				return ""
+			}
+		}
 	}
-	return "?"
-}
-
-func fsIsCall(x ast.Expr, recv, name string) bool {
-	c, ok := x.(*ast.CallExpr)
-	if !ok {
-		return false
-	}
-	s, ok := c.Fun.(*ast.SelectorExpr)
-	return ok && s.Sel.Name == name && strings.HasSuffix(fsExprText(s.X), recv)
-}
-
-func fsQuoteList(xs []string) string {
-	var q []string
-	for _, x := range xs {
-		q = append(q, CoqString(x))
-	}
-	return strings.Join(q, "; ")
+	n := 0
+	ast.Inspect(body, func(x ast.Node) bool {
+		switch s := x.(type) {
+		case *ast.AssignStmt:
+			for _, l := range s.Lhs {
+				if root(l) == name && !(s.Tok == token.DEFINE && fsText(l) == name) {
+					n++
+				}
+			}
+		case *ast.IncDecStmt:
+			if root(s.X) == name {
+				n++
+			}
+		case *ast.UnaryExpr:
+			if s.Op == token.AND && root(s.X) == name {
+				n++
+			}
+		}
+		return true
+	})
+	return n
 }
 
 type fsOut struct {
 	b strings.Builder
 }
 
+func (o *fsOut) header() {
+	o.b.WriteString("From Coq Require Import String List NArith.\nImport ListNotations.\nOpen Scope string_scope.\n\n")
+}
+func (o *fsOut) comment(s string) {
+	fmt.Fprintf(&o.b, "(* %s *)\n", strings.ReplaceAll(s, "*)", "* )"))
+}
 func (o *fsOut) str(name, val string) {
 	fmt.Fprintf(&o.b, "Definition %s : string := %s.\n", name, CoqString(val))
 }
@@ -232,34 +397,38 @@ func (o *fsOut) boolean(name string, v bool) {
 }
 func (o *fsOut) num(name, v string) { fmt.Fprintf(&o.b, "Definition %s : N := %s%%N.\n", name, v) }
 func (o *fsOut) strs(name string, v []string) {
-	fmt.Fprintf(&o.b, "Definition %s : list string := [%s].\n", name, fsQuoteList(v))
+	var q []string
+	for _, x := range v {
+		q = append(q, CoqString(x))
+	}
+	fmt.Fprintf(&o.b, "Definition %s : list string := [%s].\n", name, strings.Join(q, "; "))
 }
-func (o *fsOut) cmp(name, a, op, b string) {
-	fmt.Fprintf(&o.b, "Definition %s : string * string * string := (%s, %s, %s).\n", name, CoqString(a), CoqString(op), CoqString(b))
+func (o *fsOut) cmp(name string, c [3]string) {
+	fmt.Fprintf(&o.b, "Definition %s : string * string * string := (%s, %s, %s).\n", name, CoqString(c[0]), CoqString(c[1]), CoqString(c[2]))
+}
+func (o *fsOut) pairs(name string, ps [][2]string) {
+	var q []string
+	for _, p := range ps {
+		q = append(q, fmt.Sprintf("(%s%%N, %s%%N)", p[0], p[1]))
+	}
+	fmt.Fprintf(&o.b, "Definition %s : list (N * N) := [%s].\n", name, strings.Join(q, "; "))
 }
 
 func fsEvalNum(r *Repo, e *constEnv, x ast.Expr) (string, error) {
 	n, _, ok := e.eval(x, 0)
 	if !ok || n == nil {
-		return "", r.Refuse(x.Pos(), "cannot evaluate %s to a number", fsRender(r, x))
+		return "", r.Refuse(x.Pos(), "cannot evaluate to a number")
 	}
 	return n.String(), nil
 }
 
-// fsNOnesArg: x must be nOnes(E); returns E evaluated.
-func fsNOnesArg(r *Repo, e *constEnv, x ast.Expr) (string, error) {
-	c, ok := fsUnparen(x).(*ast.CallExpr)
-	if !ok || fsExprText(c.Fun) != "nOnes" || len(c.Args) != 1 {
-		return "", r.Refuse(x.Pos(), "expected nOnes(bits), found %s", fsRender(r, x))
-	}
-	return fsEvalNum(r, e, c.Args[0])
-}
+// ================================================================ FsGen19
 
 func genFs19(r *Repo) (string, error) {
 	o := &fsOut{}
-	o.b.WriteString("From Coq Require Import String List NArith.\nImport ListNotations.\nOpen Scope string_scope.\n\n")
+	o.header()
 
-	// ---------------- fsimpl/readdir.Readdir ----------------
+	// ---------------- fsimpl/readdir.Readdir(offset, count, names, qids) ----------------
 	rd, err := fsFunc(r, "fsimpl/readdir", "Readdir")
 	if err != nil {
 		return "", err
@@ -268,62 +437,72 @@ func genFs19(r *Repo) (string, error) {
 	if err != nil {
 		return "", err
 	}
-	o.b.WriteString("(* fsimpl/readdir/readdir.go Readdir *)\n")
-	seen := 0
+	c := newFsCtx(r, rd)
+	c.params("", "offset", "count", "names", "qids")
+	o.comment("fsimpl/readdir/readdir.go Readdir; parameters by position: offset, count, names, qids; i, name = the range variables")
+	var rng *ast.RangeStmt
+	var guard *ast.IfStmt
 	for _, st := range rd.Body.List {
 		switch s := st.(type) {
 		case *ast.IfStmt:
-			if seen&1 != 0 {
-				continue
-			}
-			a, op, b, err := fsCmp(r, s.Cond)
-			if err != nil {
-				return "", err
-			}
-			o.cmp("fs_readdir_guard", a, op, b)
-			empty := false
-			if len(s.Body.List) == 1 {
-				if ret, ok := s.Body.List[0].(*ast.ReturnStmt); ok && len(ret.Results) == 2 &&
-					fsExprText(ret.Results[0]) == "nil" && fsExprText(ret.Results[1]) == "nil" {
-					empty = true
-				}
-			}
-			o.boolean("fs_readdir_guard_returns_empty", empty)
-			seen |= 1
-		case *ast.AssignStmt:
-			if len(s.Lhs) == 1 && fsExprText(s.Lhs[0]) == "end" {
-				o.str("fs_readdir_end", fsSem(r, s.Rhs[0]))
-				seen |= 2
+			if guard == nil {
+				guard = s
 			}
 		case *ast.RangeStmt:
-			o.str("fs_readdir_range", fsSem(r, s.X))
-			o.str("fs_readdir_range_index", fsRender(r, s.Key))
-			o.str("fs_readdir_range_value", fsRender(r, s.Value))
-			seen |= 4
+			rng = s
 		}
 	}
-	if seen != 7 {
-		return "", r.Refuse(rd.Pos(), "readdir.Readdir: guard / end / range statement not found")
+	if rng == nil || guard == nil {
+		return "", r.Refuse(rd.Pos(), "readdir.Readdir: guard / range statement not found")
 	}
-	off, err := fsDirentField(r, rd.Body, "Offset")
+	if id, ok := rng.Key.(*ast.Ident); ok {
+		c.roles[id.Name] = "i"
+	}
+	if id, ok := rng.Value.(*ast.Ident); ok {
+		c.roles[id.Name] = "name"
+	}
+	sl, ok := fsUnparen(rng.X).(*ast.SliceExpr)
+	if !ok || sl.Low == nil || sl.High == nil {
+		return "", r.Refuse(rng.Pos(), "readdir.Readdir: expected `range names[lo:hi]`")
+	}
+	hi := sl.High
+	if id, ok := hi.(*ast.Ident); ok { // the upper bound: inline its definition
+		if d := fsDefOf(rd.Body, id.Name); d != nil {
+			hi = d
+		}
+	}
+	g, err := c.cmp(guard.Cond)
 	if err != nil {
 		return "", err
 	}
-	terms, c, err := fsSum(r, renv, off)
+	o.cmp("fs_readdir_guard", g)
+	empty := false
+	if len(guard.Body.List) == 1 {
+		if ret, ok := guard.Body.List[0].(*ast.ReturnStmt); ok && len(ret.Results) == 2 &&
+			fsText(ret.Results[0]) == "nil" && fsText(ret.Results[1]) == "nil" {
+			empty = true
+		}
+	}
+	o.boolean("fs_readdir_guard_returns_empty", empty)
+	o.str("fs_readdir_range_of", c.sem(sl.X))
+	o.str("fs_readdir_range_low", c.sem(sl.Low))
+	o.str("fs_readdir_range_high", c.sem(hi))
+	de, err := fsDirent(r, rng.Body)
+	if err != nil {
+		return "", err
+	}
+	terms, k, err := c.sum(renv, de["Offset"])
 	if err != nil {
 		return "", err
 	}
 	o.strs("fs_readdir_Offset_terms", terms)
-	o.num("fs_readdir_Offset_const", c)
-	for _, f := range []string{"QID", "Type", "Name"} {
-		v, err := fsDirentField(r, rd.Body, f)
-		if err != nil {
-			return "", err
-		}
-		o.str("fs_readdir_"+f, fsSem(r, v))
-	}
+	o.num("fs_readdir_Offset_const", k)
+	o.str("fs_readdir_QID", c.sem(de["QID"]))
+	o.str("fs_readdir_Type", c.sem(de["Type"]))
+	o.str("fs_readdir_Name", c.sem(de["Name"]))
+	o.boolean("fs_readdir_body_only_appends", len(rng.Body.List) == 1)
 
-	// ---------------- localfs (*Local).Readdir ----------------
+	// ---------------- localfs (*Local).Readdir(offset, count) ----------------
 	lr, err := fsFunc(r, "fsimpl/localfs", "Local.Readdir")
 	if err != nil {
 		return "", err
@@ -332,152 +511,522 @@ func genFs19(r *Repo) (string, error) {
 	if err != nil {
 		return "", err
 	}
-	o.b.WriteString("(* fsimpl/localfs/readdir.go Local.Readdir *)\n")
-	rewinds := false
-	cursorInit := ""
+	c = newFsCtx(r, lr)
+	c.params("l", "offset", "count")
+	o.comment("fsimpl/localfs/readdir.go Local.Readdir; receiver l, parameters offset, count; cursor = the variable the loop increments; ents = the slice whose length the loop tests; read = the Readdirnames result; qid = result of info(); name = the Dirent's Name")
 	var loop *ast.ForStmt
-	for _, st := range lr.Body.List {
+	loopIdx := -1
+	for i, st := range lr.Body.List {
 		if f, ok := st.(*ast.ForStmt); ok {
-			loop = f
+			loop, loopIdx = f, i
 			break
 		}
-		// an unconditional statement of the function body (not nested in another if) that calls Seek(0, io.SeekStart)
-		top := st
-		if is, ok := st.(*ast.IfStmt); ok && is.Init != nil {
-			top = is.Init // `if _, err := l.file.Seek(...); err != nil {` : the call is in the init, always executed
-		} else if ok {
-			top = nil // a Seek nested under a condition does not count
-		}
-		if top != nil {
-			ast.Inspect(top, func(x ast.Node) bool {
-				if c, ok := x.(*ast.CallExpr); ok && fsIsCall(c, "l.file", "Seek") && len(c.Args) == 2 &&
-					fsSem(r, c.Args[0]) == "0" && fsSem(r, c.Args[1]) == "io.SeekStart" {
-					rewinds = true
-				}
-				return true
-			})
-		}
-		ast.Inspect(st, func(x ast.Node) bool {
-			if vs, ok := x.(*ast.ValueSpec); ok {
-				for i, n := range vs.Names {
-					if n.Name == "cursor" && i < len(vs.Values) {
-						if v, err := fsEvalNum(r, lenv, vs.Values[i]); err == nil {
-							cursorInit = v
-						}
-					}
-				}
-			}
-			if as, ok := x.(*ast.AssignStmt); ok && len(as.Lhs) == 1 && fsExprText(as.Lhs[0]) == "cursor" {
-				cursorInit = "assigned: " + fsSem(r, as.Rhs[0])
-			}
-			return true
-		})
 	}
 	if loop == nil || loop.Cond == nil || loop.Init != nil || loop.Post != nil {
 		return "", r.Refuse(lr.Pos(), "Local.Readdir: expected `for cond { ... }`")
 	}
-	o.boolean("fs_local_rewinds", rewinds)
-	o.str("fs_local_cursor_init", cursorInit)
-	a, op, b, err := fsCmp(r, loop.Cond)
+	cursor := ""
+	ast.Inspect(loop.Body, func(x ast.Node) bool {
+		if s, ok := x.(*ast.IncDecStmt); ok && s.Tok == token.INC && cursor == "" {
+			cursor = fsText(s.X)
+		}
+		return true
+	})
+	if cursor != "" {
+		c.roles[cursor] = "cursor"
+	}
+	de, err = fsDirent(r, loop.Body)
 	if err != nil {
 		return "", err
 	}
-	o.cmp("fs_local_loop_cond", a, op, b)
-	// order of events in the loop body: read(n) / eof-return / incr / skip / entry
-	var events []string
-	var rest []string
+	readVar, qidVar, nameVar, infoOn := "", "", "", ""
 	for _, st := range loop.Body.List {
-		switch s := st.(type) {
-		case *ast.AssignStmt:
-			if len(s.Rhs) == 1 && fsIsCall(s.Rhs[0], "l.file", "Readdirnames") {
-				c := s.Rhs[0].(*ast.CallExpr)
-				events = append(events, "read "+fsSem(r, c.Args[0]))
-				continue
+		as, ok := st.(*ast.AssignStmt)
+		if !ok || len(as.Rhs) != 1 {
+			continue
+		}
+		if _, ok := fsMethodCall(as.Rhs[0], ".file", "Readdirnames"); ok {
+			readVar = fsText(as.Lhs[0])
+		}
+		if call, ok := as.Rhs[0].(*ast.CallExpr); ok {
+			if s, ok := call.Fun.(*ast.SelectorExpr); ok && s.Sel.Name == "info" && len(call.Args) == 0 {
+				qidVar, infoOn = fsText(as.Lhs[0]), fsText(s.X)
 			}
-			if len(s.Rhs) == 1 {
-				if _, err := fsDirentField(r, s, "Offset"); err == nil {
-					events = append(events, "entry")
-					continue
-				}
-			}
-			rest = append(rest, fsRender(r, s))
-		case *ast.IncDecStmt:
-			if fsExprText(s.X) == "cursor" && s.Tok == token.INC {
-				events = append(events, "incr")
-			} else {
-				return "", r.Refuse(st.Pos(), "Local.Readdir loop: %s", fsRender(r, s))
-			}
-		case *ast.IfStmt:
-			if len(s.Body.List) == 1 {
-				if br, ok := s.Body.List[0].(*ast.BranchStmt); ok && br.Tok == token.CONTINUE && s.Else == nil {
-					a, op, b, err := fsCmp(r, s.Cond)
-					if err != nil {
-						return "", err
-					}
-					o.cmp("fs_local_skip", a, op, b)
-					events = append(events, "skip")
-					continue
-				}
-				if ret, ok := s.Body.List[0].(*ast.ReturnStmt); ok && fsSem(r, s.Cond) == "(err == io.EOF)" {
-					events = append(events, "eof-return "+fsSem(r, ret.Results[0])+", "+fsSem(r, ret.Results[1]))
-					continue
-				}
-			}
-			rest = append(rest, "if "+fsRender(r, s.Cond)+" "+fsRender(r, s.Body))
-		default:
-			return "", r.Refuse(st.Pos(), "Local.Readdir loop: statement kind %T", st)
 		}
 	}
-	o.strs("fs_local_loop_events", events)
-	o.strs("fs_local_loop_rest", rest)
-	for _, f := range []string{"QID", "Type", "Offset", "Name"} {
-		v, err := fsDirentField(r, loop.Body, f)
-		if err != nil {
-			return "", err
-		}
-		o.str("fs_local_"+f, fsSem(r, v))
-	}
-
-	// ---------------- p9 rreaddir.encode: the truncation test ----------------
-	re, err := fsFunc(r, "p9", "rreaddir.encode")
-	if err != nil {
-		return "", err
-	}
-	o.b.WriteString("(* p9/messages.go rreaddir.encode *)\n")
-	var brk ast.Expr
-	ast.Inspect(re.Body, func(x ast.Node) bool {
-		if s, ok := x.(*ast.IfStmt); ok && len(s.Body.List) == 1 {
-			if br, ok := s.Body.List[0].(*ast.BranchStmt); ok && br.Tok == token.BREAK {
-				brk = s.Cond
+	ast.Inspect(loop.Body, func(x ast.Node) bool { // err = what is compared with io.EOF
+		if b, ok := x.(*ast.BinaryExpr); ok && fsText(b.Y) == "io.EOF" {
+			if id, ok := b.X.(*ast.Ident); ok {
+				c.roles[id.Name] = "err"
 			}
 		}
 		return true
 	})
-	if brk == nil {
-		return "", r.Refuse(re.Pos(), "rreaddir.encode: `if cond { break }` not found")
+	if readVar != "" {
+		c.roles[readVar] = "read"
 	}
-	a, op, b, err = fsCmp(r, brk)
+	if qidVar != "" {
+		c.roles[qidVar] = "qid"
+	}
+	if id, ok := fsUnparen(de["Name"]).(*ast.Ident); ok {
+		nameVar = id.Name
+		c.roles[nameVar] = "name"
+	}
+	if be, ok := fsUnparen(loop.Cond).(*ast.BinaryExpr); ok {
+		for _, side := range []ast.Expr{be.X, be.Y} {
+			if call, ok := fsUnparen(side).(*ast.CallExpr); ok && fsText(call.Fun) == "len" && len(call.Args) == 1 {
+				c.roles[fsText(call.Args[0])] = "ents"
+			}
+		}
+	}
+	// rewind: an unconditional statement before the loop calling <recv>.file.Seek(0, io.SeekStart)
+	rewinds := false
+	for _, st := range lr.Body.List[:loopIdx] {
+		var top ast.Node = st
+		if is, ok := st.(*ast.IfStmt); ok {
+			top = nil // a Seek under a condition does not count ...
+			if is.Init != nil {
+				top = is.Init // ... but `if _, err := l.file.Seek(...); err != nil`: the init always runs
+			}
+		}
+		if top == nil {
+			continue
+		}
+		ast.Inspect(top, func(x ast.Node) bool {
+			if e, ok := x.(ast.Expr); ok {
+				if call, ok := fsMethodCall(e, ".file", "Seek"); ok && len(call.Args) == 2 &&
+					c.sem(call.Args[0]) == "0" && c.sem(call.Args[1]) == "io.SeekStart" {
+					rewinds = true
+				}
+			}
+			return true
+		})
+	}
+	o.boolean("fs_local_rewinds", rewinds)
+	ci := "?"
+	if cursor != "" {
+		if d := fsDefOf(lr.Body, cursor); d != nil {
+			if v, err := fsEvalNum(r, lenv, d); err == nil {
+				ci = v
+			}
+		}
+		o.num("fs_local_cursor_writes", fmt.Sprint(fsWrites(lr.Body, cursor))) // only the one increment
+	} else {
+		o.num("fs_local_cursor_writes", "0")
+	}
+	o.str("fs_local_cursor_init", ci)
+	lc, err := c.cmp(loop.Cond)
 	if err != nil {
 		return "", err
 	}
-	o.cmp("fs_rreaddir_break", a, op, b)
+	o.cmp("fs_local_loop_cond", lc)
+	var events []string
+	skipSeen := false
+	for _, st := range loop.Body.List {
+		switch s := st.(type) {
+		case *ast.AssignStmt:
+			if len(s.Rhs) == 1 {
+				if call, ok := fsMethodCall(s.Rhs[0], ".file", "Readdirnames"); ok {
+					events = append(events, "read "+c.sem(call.Args[0]))
+					continue
+				}
+				if call, ok := s.Rhs[0].(*ast.CallExpr); ok && fsText(call.Fun) == "append" {
+					if _, err := fsDirent(r, s); err == nil {
+						events = append(events, "append entry to "+c.sem(call.Args[0]))
+						continue
+					}
+				}
+				if nameVar != "" && fsText(s.Lhs[0]) == nameVar {
+					events = append(events, "name := "+c.sem(s.Rhs[0]))
+					continue
+				}
+				if qidVar != "" && fsText(s.Lhs[0]) == qidVar {
+					events = append(events, "qid := info of "+c.sem(fsDefOf(loop.Body, infoOn)))
+					continue
+				}
+				if infoOn != "" && fsText(s.Lhs[0]) == infoOn {
+					continue // the Local value info() is called on: reported with the qid event
+				}
+			}
+			return "", r.Refuse(st.Pos(), "Local.Readdir loop: %s", c.text(s))
+		case *ast.IncDecStmt:
+			events = append(events, c.sem(s.X)+s.Tok.String())
+		case *ast.IfStmt:
+			if len(s.Body.List) == 1 && s.Init == nil {
+				if br, ok := s.Body.List[0].(*ast.BranchStmt); ok && br.Tok == token.CONTINUE && s.Else == nil {
+					k, err := c.cmp(s.Cond)
+					if err != nil { // not a plain comparison: report it as written; the obligation then fails (no refusal)
+						k = [3]string{c.sem(s.Cond), "?", ""}
+					}
+					if !skipSeen {
+						o.cmp("fs_local_skip", k)
+						skipSeen = true
+					}
+					events = append(events, "skip")
+					continue
+				}
+				if ret, ok := s.Body.List[0].(*ast.ReturnStmt); ok && len(ret.Results) == 2 {
+					events = append(events, "if "+c.sem(s.Cond)+" return "+c.sem(ret.Results[0])+", "+c.sem(ret.Results[1]))
+					continue
+				}
+			}
+			return "", r.Refuse(st.Pos(), "Local.Readdir loop: %s", c.text(s))
+		default:
+			return "", r.Refuse(st.Pos(), "Local.Readdir loop: statement kind %T", st)
+		}
+	}
+	if !skipSeen {
+		o.cmp("fs_local_skip", [3]string{"", "none", ""})
+	}
+	o.strs("fs_local_loop_events", events)
+	o.str("fs_local_QID", c.sem(de["QID"]))
+	o.str("fs_local_Type", c.sem(de["Type"]))
+	o.str("fs_local_Offset", c.sem(de["Offset"]))
+	o.str("fs_local_Name", c.sem(de["Name"]))
+	if qidVar != "" {
+		o.num("fs_local_readdir_qid_writes", fmt.Sprint(fsWrites(loop.Body, qidVar)))
+	} else {
+		o.num("fs_local_readdir_qid_writes", "99")
+	}
 
+	// ---------------- localfs info / Walk / GetAttr: the QID of info() reaches the caller unmodified ----------------
+	inf, err := fsFunc(r, "fsimpl/localfs", "Local.info")
+	if err != nil {
+		return "", err
+	}
+	c = newFsCtx(r, inf)
+	c.params("l")
+	o.comment("fsimpl/localfs/localfs.go Local.info / Walk / GetAttr; qid = the QID info() builds, fi = the FileInfo whose Mode() it uses")
+	var typeRhs, pathRhs ast.Expr
+	var stats []string
+	qv := ""
+	ast.Inspect(inf.Body, func(x ast.Node) bool {
+		as, ok := x.(*ast.AssignStmt)
+		if !ok || len(as.Rhs) != 1 {
+			return true
+		}
+		for _, l := range as.Lhs {
+			if s, ok := l.(*ast.SelectorExpr); ok {
+				switch s.Sel.Name {
+				case "Type":
+					typeRhs, qv = as.Rhs[0], fsText(s.X)
+				case "Path":
+					pathRhs = as.Rhs[0]
+				}
+			}
+		}
+		return true
+	})
+	if typeRhs == nil || pathRhs == nil {
+		return "", r.Refuse(inf.Pos(), "Local.info: assignments to qid.Type / qid.Path not found")
+	}
+	c.roles[qv] = "qid"
+	ast.Inspect(typeRhs, func(x ast.Node) bool {
+		if call, ok := x.(*ast.CallExpr); ok {
+			if s, ok := call.Fun.(*ast.SelectorExpr); ok && s.Sel.Name == "Mode" {
+				c.roles[fsText(s.X)] = "fi"
+			}
+		}
+		return true
+	})
+	ast.Inspect(inf.Body, func(x ast.Node) bool {
+		as, ok := x.(*ast.AssignStmt)
+		if !ok || len(as.Rhs) != 1 {
+			return true
+		}
+		if _, ok := fsMethodCall(as.Rhs[0], ".file", "Stat"); ok {
+			stats = append(stats, "l.file.Stat()")
+		}
+		for _, fn := range []string{"os.Lstat", "os.Stat"} {
+			if call, ok := fsPkgCall(as.Rhs[0], fn); ok {
+				stats = append(stats, fn+"("+c.sem(call.Args[0])+")")
+			}
+		}
+		return true
+	})
+	if id, ok := pathRhs.(*ast.Ident); ok { // ninePath, err := localToQid(l.path, fi)
+		if d := fsDefOf(inf.Body, id.Name); d != nil {
+			pathRhs = d
+		}
+	}
+	o.str("fs_info_type", c.sem(typeRhs))
+	o.str("fs_info_path", c.sem(pathRhs))
+	sort.Strings(stats)
+	o.strs("fs_info_stat_calls", stats)
+	o.num("fs_info_qid_writes", fmt.Sprint(fsWrites(inf.Body, qv))) // exactly the two field assignments
+
+	wk, err := fsFunc(r, "fsimpl/localfs", "Local.Walk")
+	if err != nil {
+		return "", err
+	}
+	c = newFsCtx(r, wk)
+	c.params("l", "names")
+	wq, wOn := "", ""
+	var wAppend []string
+	ast.Inspect(wk.Body, func(x ast.Node) bool {
+		switch s := x.(type) {
+		case *ast.RangeStmt:
+			if id, ok := s.Value.(*ast.Ident); ok {
+				c.roles[id.Name] = "name"
+			}
+		case *ast.AssignStmt:
+			if len(s.Rhs) != 1 {
+				return true
+			}
+			if call, ok := s.Rhs[0].(*ast.CallExpr); ok {
+				if sel, ok := call.Fun.(*ast.SelectorExpr); ok && sel.Sel.Name == "info" {
+					wq, wOn = fsText(s.Lhs[0]), fsText(sel.X)
+				}
+				if fsText(call.Fun) == "append" && len(call.Args) == 2 {
+					wAppend = append(wAppend, fsText(call.Args[1]))
+				}
+			}
+		}
+		return true
+	})
+	o.boolean("fs_walk_qid_is_info_unmodified", wq != "" && len(wAppend) == 1 && wAppend[0] == wq && fsWrites(wk.Body, wq) == 0)
+	// what info() is called on: &Local{path: path.Join(<walked so far>.path, name)}; the walked-so-far variable keeps its positional name
+	won := fsDefOf(wk.Body, wOn)
+	if won == nil {
+		return "", r.Refuse(wk.Pos(), "Local.Walk: the value info() is called on is not defined in the function")
+	}
+	ast.Inspect(won, func(x ast.Node) bool { // last = the variable whose .path the name is joined to
+		if call, ok := x.(*ast.CallExpr); ok && fsText(call.Fun) == "path.Join" && len(call.Args) == 2 {
+			if id, ok := rootOf(call.Args[0]).(*ast.Ident); ok {
+				c.roles[id.Name] = "last"
+			}
+		}
+		return true
+	})
+	o.str("fs_walk_info_on", c.sem(won))
+
+	ga, err := fsFunc(r, "fsimpl/localfs", "Local.GetAttr")
+	if err != nil {
+		return "", err
+	}
+	c = newFsCtx(r, ga)
+	c.params("l", "req")
+	gq, gOn := "", ""
+	ast.Inspect(ga.Body, func(x ast.Node) bool {
+		if as, ok := x.(*ast.AssignStmt); ok && len(as.Rhs) == 1 {
+			if call, ok := as.Rhs[0].(*ast.CallExpr); ok {
+				if s, ok := call.Fun.(*ast.SelectorExpr); ok && s.Sel.Name == "info" {
+					gq, gOn = fsText(as.Lhs[0]), c.sem(s.X)
+				}
+			}
+		}
+		return true
+	})
+	getOK := gq != "" && gOn == "l" && fsWrites(ga.Body, gq) == 0
+	nret := 0
+	ast.Inspect(ga.Body, func(x ast.Node) bool {
+		if ret, ok := x.(*ast.ReturnStmt); ok && len(ret.Results) == 4 {
+			nret++
+			if fsText(ret.Results[0]) != gq {
+				getOK = false
+			}
+		}
+		return true
+	})
+	o.boolean("fs_getattr_qid_is_info_unmodified", getOK && nret >= 1)
+	attrMode := ""
+	ast.Inspect(ga.Body, func(x ast.Node) bool {
+		if kv, ok := x.(*ast.KeyValueExpr); ok && fsText(kv.Key) == "Mode" {
+			if call, ok := kv.Value.(*ast.CallExpr); ok && len(call.Args) == 1 {
+				attrMode = fsText(call.Fun) + "(<stat>" + fsFields(call.Args[0]) + ")"
+			}
+		}
+		return true
+	})
+	o.str("fs_getattr_attr_mode", attrMode)
+
+	// ---------------- p9 rreaddir.encode: the truncation ----------------
+	re, err := fsFunc(r, "p9", "rreaddir.encode")
+	if err != nil {
+		return "", err
+	}
+	c = newFsCtx(r, re)
+	c.params("r", "b")
+	o.comment("p9/messages.go rreaddir.encode; receiver r; scratch = the buffer every entry is encoded into, size = the payload size kept")
+	var erng *ast.RangeStmt
+	for _, st := range re.Body.List {
+		if s, ok := st.(*ast.RangeStmt); ok {
+			erng = s
+		}
+	}
+	if erng == nil {
+		return "", r.Refuse(re.Pos(), "rreaddir.encode: range over the entries not found")
+	}
+	var ev []string
+	for _, st := range erng.Body.List {
+		switch s := st.(type) {
+		case *ast.ExprStmt:
+			if call, ok := s.X.(*ast.CallExpr); ok {
+				if sel, ok := call.Fun.(*ast.SelectorExpr); ok && sel.Sel.Name == "encode" && len(call.Args) == 1 {
+					if u, ok := call.Args[0].(*ast.UnaryExpr); ok && u.Op == token.AND {
+						c.roles[fsText(u.X)] = "scratch"
+					}
+					ev = append(ev, "encode entry into scratch")
+					continue
+				}
+			}
+			return "", r.Refuse(st.Pos(), "rreaddir.encode loop: %s", c.text(s))
+		case *ast.IfStmt:
+			if len(s.Body.List) == 1 {
+				if br, ok := s.Body.List[0].(*ast.BranchStmt); ok && br.Tok == token.BREAK {
+					k, err := c.cmp(s.Cond)
+					if err != nil {
+						return "", err
+					}
+					o.cmp("fs_rreaddir_break", k)
+					ev = append(ev, "break-test")
+					continue
+				}
+			}
+			return "", r.Refuse(st.Pos(), "rreaddir.encode loop: %s", c.text(s))
+		case *ast.AssignStmt:
+			if len(s.Lhs) == 1 && len(s.Rhs) == 1 && s.Tok == token.ASSIGN {
+				c.roles[fsText(s.Lhs[0])] = "size"
+				ev = append(ev, "size = "+c.sem(s.Rhs[0]))
+				continue
+			}
+			return "", r.Refuse(st.Pos(), "rreaddir.encode loop: %s", c.text(s))
+		default:
+			return "", r.Refuse(st.Pos(), "rreaddir.encode loop: statement kind %T", st)
+		}
+	}
+	o.strs("fs_rreaddir_loop", ev)
+	var after []string
+	seen := false
+	for _, st := range re.Body.List {
+		if st == ast.Stmt(erng) {
+			seen = true
+			continue
+		}
+		if !seen {
+			continue
+		}
+		if as, ok := st.(*ast.AssignStmt); ok && len(as.Lhs) == 1 && len(as.Rhs) == 1 {
+			after = append(after, c.sem(as.Lhs[0])+" = "+c.sem(stripConv(as.Rhs[0])))
+		} else if es, ok := st.(*ast.ExprStmt); ok {
+			after = append(after, c.sem(es.X))
+		} else {
+			after = append(after, c.text(st))
+		}
+	}
+	o.strs("fs_rreaddir_after", after)
 	return o.b.String(), nil
 }
 
-// genFs20: fsimpl/qids and the localfs QID functions (C20); a separate file so that a refusal in the
-// Readdir part (C19) does not take the C20 obligations down with it, and vice versa.
+// ================================================================ FsGen20
+
+// io/fs FileMode bits (Go standard library, fixed by the Go 1 compatibility promise)
+var fsOsMode = map[string]uint64{
+	"os.ModeDir": 1 << 31, "os.ModeAppend": 1 << 30, "os.ModeExclusive": 1 << 29, "os.ModeTemporary": 1 << 28,
+	"os.ModeSymlink": 1 << 27, "os.ModeDevice": 1 << 26, "os.ModeNamedPipe": 1 << 25, "os.ModeSocket": 1 << 24,
+	"os.ModeSetuid": 1 << 23, "os.ModeSetgid": 1 << 22, "os.ModeCharDevice": 1 << 21, "os.ModeSticky": 1 << 20,
+	"os.ModeIrregular": 1 << 19, "os.ModePerm": 0o777,
+}
+
+// fsOsBits evaluates an |-combination of os.Mode* constants.
+func fsOsBits(r *Repo, x ast.Expr) (uint64, error) {
+	x = fsUnparen(x)
+	if b, ok := x.(*ast.BinaryExpr); ok && b.Op == token.OR {
+		l, err := fsOsBits(r, b.X)
+		if err != nil {
+			return 0, err
+		}
+		rr, err := fsOsBits(r, b.Y)
+		return l | rr, err
+	}
+	if v, ok := fsOsMode[fsText(x)]; ok {
+		return v, nil
+	}
+	return 0, r.Refuse(x.Pos(), "expected os.Mode* constants")
+}
+
+// fsOsTest: `v.IsDir()` or `v&os.ModeX != 0` on the local v: the tested os bits.
+func fsOsTest(r *Repo, x ast.Expr, v string) (uint64, error) {
+	x = fsUnparen(x)
+	if call, ok := x.(*ast.CallExpr); ok {
+		if s, ok := call.Fun.(*ast.SelectorExpr); ok && fsText(s.X) == v && s.Sel.Name == "IsDir" {
+			return fsOsMode["os.ModeDir"], nil
+		}
+	}
+	if b, ok := x.(*ast.BinaryExpr); ok && b.Op == token.NEQ {
+		if lit, ok := fsUnparen(b.Y).(*ast.BasicLit); ok && lit.Value == "0" {
+			if a, ok := fsUnparen(b.X).(*ast.BinaryExpr); ok && a.Op == token.AND && fsText(fsUnparen(a.X)) == v {
+				return fsOsBits(r, a.Y)
+			}
+		}
+	}
+	return 0, r.Refuse(x.Pos(), "expected %s.IsDir() or %s&os.ModeX != 0", v, v)
+}
+
+// fsOrAssigned: the statement list is exactly `v |= E`; returns E.
+func fsOrAssigned(body []ast.Stmt, v string) ast.Expr {
+	if len(body) != 1 {
+		return nil
+	}
+	as, ok := body[0].(*ast.AssignStmt)
+	if !ok || as.Tok != token.OR_ASSIGN || len(as.Lhs) != 1 || fsText(as.Lhs[0]) != v {
+		return nil
+	}
+	return as.Rhs[0]
+}
+
+// fsP9Preds: FileMode predicate methods `func (m FileMode) IsX() bool { return m&FileModeMask == ModeX }` -> value of ModeX.
+func fsP9Preds(r *Repo, env *constEnv) (map[string]string, error) {
+	fds, err := r.FuncDecls("p9")
+	if err != nil {
+		return nil, err
+	}
+	out := map[string]string{}
+	for k, fd := range fds {
+		if !strings.HasPrefix(k, "FileMode.Is") || fd.Body == nil || len(fd.Body.List) != 1 {
+			continue
+		}
+		ret, ok := fd.Body.List[0].(*ast.ReturnStmt)
+		if !ok || len(ret.Results) != 1 {
+			continue
+		}
+		b, ok := fsUnparen(ret.Results[0]).(*ast.BinaryExpr)
+		if !ok || b.Op != token.EQL {
+			continue
+		}
+		a, ok := fsUnparen(b.X).(*ast.BinaryExpr)
+		if !ok || a.Op != token.AND || fsText(a.Y) != "FileModeMask" {
+			continue
+		}
+		if v, err := fsEvalNum(r, env, b.Y); err == nil {
+			out[strings.TrimPrefix(k, "FileMode.")] = v
+		}
+	}
+	return out, nil
+}
+
+// stripConv removes one FileMode(x) / os.FileMode(x) / uint32(len) style conversion used in the mode functions.
+func stripConv(x ast.Expr) ast.Expr {
+	x = fsUnparen(x)
+	if call, ok := x.(*ast.CallExpr); ok && len(call.Args) == 1 {
+		switch fsText(call.Fun) {
+		case "FileMode", "os.FileMode", "uint32":
+			return call.Args[0]
+		}
+	}
+	return x
+}
+
 func genFs20(r *Repo) (string, error) {
 	o := &fsOut{}
-	o.b.WriteString("From Coq Require Import String List NArith.\nImport ListNotations.\nOpen Scope string_scope.\n\n")
+	o.header()
 	lenv, _, err := collectConsts(r, "fsimpl/localfs")
 	if err != nil {
 		return "", err
 	}
-	var a, op, b string
-	_, _, _ = a, op, b
+
 	// ---------------- qids.go ----------------
-	o.b.WriteString("(* fsimpl/qids/qids.go *)\n")
+	o.comment("fsimpl/qids/qids.go")
 	qfd, err := r.FuncDecls("fsimpl/qids")
 	if err != nil {
 		return "", err
@@ -513,14 +1062,23 @@ func genFs20(r *Repo) (string, error) {
 		if ok {
 			es, ok1 := fd.Body.List[0].(*ast.ExprStmt)
 			ds, ok2 := fd.Body.List[1].(*ast.DeferStmt)
-			ok = ok1 && ok2 && fsIsCall(es.X, "m.mu", "Lock") && fsIsCall(ds.Call, "m.mu", "Unlock")
+			ok = ok1 && ok2
+			if ok {
+				_, a := fsMethodCall(es.X, ".mu", "Lock")
+				_, b := fsMethodCall(ds.Call, ".mu", "Unlock")
+				ok = a && b
+			}
 		}
-		// no further Lock/Unlock of m.mu inside (the critical section is the whole body)
-		if ok {
+		if ok { // no further Lock/Unlock inside: the critical section is the whole body
 			n := 0
 			ast.Inspect(fd.Body, func(x ast.Node) bool {
-				if c, isCall := x.(*ast.CallExpr); isCall && (fsIsCall(c, "m.mu", "Lock") || fsIsCall(c, "m.mu", "Unlock")) {
-					n++
+				if e, isE := x.(ast.Expr); isE {
+					if _, a := fsMethodCall(e, ".mu", "Lock"); a {
+						n++
+					}
+					if _, b := fsMethodCall(e, ".mu", "Unlock"); b {
+						n++
+					}
 				}
 				return true
 			})
@@ -539,10 +1097,11 @@ func genFs20(r *Repo) (string, error) {
 	delta := ""
 	if len(np.Body.List) == 1 {
 		if ret, ok := np.Body.List[0].(*ast.ReturnStmt); ok && len(ret.Results) == 1 {
-			if c, ok := ret.Results[0].(*ast.CallExpr); ok && fsExprText(c.Fun) == "atomic.AddUint64" && len(c.Args) == 2 &&
-				fsSem(r, c.Args[0]) == "&g.uids" {
-				if v, err := fsEvalNum(r, qenv, c.Args[1]); err == nil {
-					delta = v
+			if call, ok := fsPkgCall(ret.Results[0], "atomic.AddUint64"); ok && len(call.Args) == 2 {
+				if u, ok := call.Args[0].(*ast.UnaryExpr); ok && u.Op == token.AND && fsFields(u.X) == ".uids" {
+					if v, err := fsEvalNum(r, qenv, call.Args[1]); err == nil {
+						delta = v
+					}
 				}
 			}
 		}
@@ -555,68 +1114,82 @@ func genFs20(r *Repo) (string, error) {
 	if err != nil {
 		return "", err
 	}
+	c := newFsCtx(r, qf)
 	var qstm []string
 	for _, st := range qf.Body.List {
 		switch s := st.(type) {
 		case *ast.IfStmt:
 			init := ""
 			if s.Init != nil {
-				init = fsRender(r, s.Init) + "; "
+				init = c.text(s.Init) + "; "
 			}
-			qstm = append(qstm, "if "+init+fsRender(r, s.Cond))
+			qstm = append(qstm, "if "+init+c.text(s.Cond)+" { return hit }")
 		case *ast.ReturnStmt:
 			qstm = append(qstm, "return")
 		default:
-			qstm = append(qstm, fsRender(r, st))
+			qstm = append(qstm, c.text(st))
 		}
 	}
-	o.strs("fs_qidfor_body", qstm)
+	o.strs("fs_qidfor_body", qstm) // locals under alpha.go's positional names: _v0 receiver, _v1 parameter, ...
 
-	// ---------------- localfs system_unix.go ----------------
-	o.b.WriteString("(* fsimpl/localfs/system_unix.go *)\n")
+	// ---------------- localfs system_unix.go: encodeLikely(dev, ino) ----------------
+	o.comment("fsimpl/localfs/system_unix.go encodeLikely; parameters dev, ino; major/minor = the values built from unix.Major/unix.Minor; inoLikely = the first nOnes mask; q = the result")
 	el, err := fsFuncIn(r, "fsimpl/localfs", "system_unix.go", "encodeLikely")
 	if err != nil {
 		return "", err
 	}
-	// statement by statement; every statement must be one of the recognised shapes
+	c = newFsCtx(r, el)
+	c.params("", "dev", "ino")
+	nOnesArg := func(x ast.Expr) (string, bool) {
+		call, ok := fsPkgCall(fsUnparen(x), "nOnes")
+		if !ok || len(call.Args) != 1 {
+			return "", false
+		}
+		v, err := fsEvalNum(r, lenv, call.Args[0])
+		return v, err == nil
+	}
 	var orTerms []string
 	var shape []string
+	masks := 0
 	for _, st := range el.Body.List {
 		switch s := st.(type) {
 		case *ast.AssignStmt:
-			lhs := fsExprText(s.Lhs[0])
+			lhs := fsText(s.Lhs[0])
 			rhs := fsUnparen(s.Rhs[0])
-			switch {
-			case s.Tok == token.DEFINE && lhs == "inoLikely":
-				v, err := fsNOnesArg(r, lenv, rhs)
-				if err != nil {
-					return "", err
+			if s.Tok == token.DEFINE {
+				if v, ok := nOnesArg(rhs); ok && masks == 0 {
+					c.roles[lhs] = "inoLikely"
+					o.num("fs_enc_ino_bits", v)
+					shape = append(shape, "inoLikely")
+					masks++
+					continue
 				}
-				o.num("fs_enc_ino_bits", v)
-				shape = append(shape, "inoLikely")
-			case s.Tok == token.DEFINE && lhs == "upperUnlikely":
-				b, ok := rhs.(*ast.BinaryExpr)
-				if !ok || b.Op != token.SHL {
-					return "", r.Refuse(st.Pos(), "upperUnlikely: expected nOnes(a) << b")
+				if b, ok := rhs.(*ast.BinaryExpr); ok && b.Op == token.SHL {
+					if v, ok := nOnesArg(b.X); ok {
+						w, err := fsEvalNum(r, lenv, b.Y)
+						if err != nil {
+							return "", err
+						}
+						c.roles[lhs] = "upperUnlikely"
+						o.num("fs_enc_upper_bits", v)
+						o.num("fs_enc_upper_offset", w)
+						shape = append(shape, "upperUnlikely")
+						continue
+					}
 				}
-				v, err := fsNOnesArg(r, lenv, b.X)
-				if err != nil {
-					return "", err
+				if call, ok := rhs.(*ast.CallExpr); ok && (fsText(call.Fun) == "unix.Major" || fsText(call.Fun) == "unix.Minor") && len(call.Args) == 1 {
+					role := strings.ToLower(strings.TrimPrefix(fsText(call.Fun), "unix."))
+					c.roles[lhs] = role
+					shape = append(shape, role+" := "+c.sem(rhs))
+					continue
 				}
-				w, err := fsEvalNum(r, lenv, b.Y)
-				if err != nil {
-					return "", err
+				if _, ok := rhs.(*ast.BinaryExpr); ok {
+					c.roles[lhs] = "q"
+					shape = append(shape, "q := "+c.sem(rhs))
+					continue
 				}
-				o.num("fs_enc_upper_bits", v)
-				o.num("fs_enc_upper_offset", w)
-				shape = append(shape, "upperUnlikely")
-			case s.Tok == token.DEFINE && (lhs == "major" || lhs == "minor"):
-				o.str("fs_enc_"+lhs+"_def", fsSem(r, rhs))
-				shape = append(shape, lhs)
-			case s.Tok == token.DEFINE && lhs == "q":
-				o.str("fs_enc_q_init", fsSem(r, rhs))
-				shape = append(shape, "q")
-			case s.Tok == token.OR_ASSIGN && lhs == "q":
+			}
+			if s.Tok == token.OR_ASSIGN && c.name(lhs) == "q" {
 				b, ok := rhs.(*ast.BinaryExpr)
 				if !ok || b.Op != token.SHL {
 					return "", r.Refuse(st.Pos(), "q |= : expected x << amount")
@@ -625,41 +1198,48 @@ func genFs20(r *Repo) (string, error) {
 				if err != nil {
 					return "", err
 				}
-				orTerms = append(orTerms, fmt.Sprintf("(%s, %s%%N)", CoqString(fsSem(r, b.X)), w))
+				orTerms = append(orTerms, fmt.Sprintf("(%s, %s%%N)", CoqString(c.sem(b.X)), w))
 				shape = append(shape, "or")
-			default:
-				return "", r.Refuse(st.Pos(), "encodeLikely: %s", fsRender(r, s))
+				continue
 			}
+			return "", r.Refuse(st.Pos(), "encodeLikely: %s", c.text(s))
 		case *ast.IfStmt:
-			// every guard returns (0, false)
 			if len(s.Body.List) != 1 {
 				return "", r.Refuse(st.Pos(), "encodeLikely: guard body")
 			}
 			ret, ok := s.Body.List[0].(*ast.ReturnStmt)
-			if !ok || len(ret.Results) != 2 || fsSem(r, ret.Results[0]) != "0" || fsSem(r, ret.Results[1]) != "false" {
+			if !ok || len(ret.Results) != 2 || c.sem(ret.Results[0]) != "0" || c.sem(ret.Results[1]) != "false" {
 				return "", r.Refuse(st.Pos(), "encodeLikely: guard must return 0, false")
 			}
-			a, op, b, err := fsCmp(r, s.Cond)
-			if err != nil {
-				return "", err
+			be, ok := fsUnparen(s.Cond).(*ast.BinaryExpr)
+			if !ok {
+				return "", r.Refuse(st.Pos(), "encodeLikely: guard condition")
 			}
-			// nOnes(K) on either side is replaced by its evaluated width
-			fix := func(side string, x ast.Expr) string {
-				if v, err := fsNOnesArg(r, lenv, x); err == nil {
-					return "nOnes " + v
+			side := func(x ast.Expr) string {
+				if _, ok := nOnesArg(x); ok {
+					return "nOnes"
 				}
-				return side
+				return c.sem(x)
 			}
-			be := fsUnparen(s.Cond).(*ast.BinaryExpr)
-			l2, r2 := fix(fsSem(r, be.X), be.X), fix(fsSem(r, be.Y), be.Y)
-			if be.Op == token.GTR || be.Op == token.GEQ {
-				l2, r2 = r2, l2
+			for _, x := range []ast.Expr{be.X, be.Y} {
+				if v, ok := nOnesArg(x); ok {
+					other := be.X
+					if x == be.X {
+						other = be.Y
+					}
+					o.num("fs_enc_"+c.sem(other)+"_bits", v)
+				}
 			}
-			_ = a
-			_ = b
+			l2, r2, op := side(be.X), side(be.Y), be.Op.String()
+			switch be.Op {
+			case token.GTR:
+				l2, r2, op = r2, l2, "<"
+			case token.GEQ:
+				l2, r2, op = r2, l2, "<="
+			}
 			shape = append(shape, "guard "+l2+" "+op+" "+r2)
 		case *ast.ReturnStmt:
-			shape = append(shape, "return "+fsSem(r, s.Results[0])+", "+fsSem(r, s.Results[1]))
+			shape = append(shape, "return "+c.sem(s.Results[0])+", "+c.sem(s.Results[1]))
 		default:
 			return "", r.Refuse(st.Pos(), "encodeLikely: statement kind %T", st)
 		}
@@ -670,77 +1250,105 @@ func genFs20(r *Repo) (string, error) {
 	if err != nil {
 		return "", err
 	}
+	c = newFsCtx(r, no)
+	c.params("", "n")
 	nob := ""
 	if len(no.Body.List) == 1 {
 		if ret, ok := no.Body.List[0].(*ast.ReturnStmt); ok && len(ret.Results) == 1 {
-			nob = fsSem(r, ret.Results[0])
+			nob = c.sem(ret.Results[0])
 		}
 	}
 	o.str("fs_nOnes", nob)
 
+	// ---------------- localToQid ----------------
 	lq, err := fsFuncIn(r, "fsimpl/localfs", "system_unix.go", "localToQid")
 	if err != nil {
 		return "", err
 	}
-	keyIsValue, keyFields := false, ""
-	addDelta := ""
-	sameKey := true
-	var lst []string
-	for _, st := range lq.Body.List {
-		switch s := st.(type) {
-		case *ast.IfStmt:
-			init := ""
-			if s.Init != nil {
-				init = fsRender(r, s.Init) + "; "
+	c = newFsCtx(r, lq)
+	c.params("", "path", "fi")
+	keyVar, keyFields, encArgs, statVar := "", "", "", ""
+	ast.Inspect(lq.Body, func(x ast.Node) bool {
+		if s, ok := x.(*ast.AssignStmt); ok && len(s.Rhs) == 1 {
+			if cl, ok := s.Rhs[0].(*ast.CompositeLit); ok && fsText(cl.Type) == "devino" {
+				keyVar = fsText(s.Lhs[0])
 			}
-			lst = append(lst, "if "+init+fsRender(r, s.Cond)+" "+fsRender(r, s.Body))
-		default:
-			lst = append(lst, fsRender(r, st))
-		}
-		if as, ok := st.(*ast.AssignStmt); ok && len(as.Lhs) == 1 && fsExprText(as.Lhs[0]) == "di" {
-			if cl, ok := as.Rhs[0].(*ast.CompositeLit); ok && fsExprText(cl.Type) == "devino" {
-				keyIsValue = true
-				var fs []string
-				for _, e := range cl.Elts {
-					fs = append(fs, fsSem(r, e))
-				}
-				keyFields = strings.Join(fs, ", ")
+			if ta, ok := s.Rhs[0].(*ast.TypeAssertExpr); ok && strings.Contains(c.sem(ta.Type), "Stat_t") {
+				statVar = fsText(s.Lhs[0])
 			}
 		}
-		ast.Inspect(st, func(x ast.Node) bool {
-			c, ok := x.(*ast.CallExpr)
-			if !ok {
-				return true
-			}
-			if fsIsCall(c, "qids", "Load") || fsIsCall(c, "qids", "LoadOrStore") {
-				if len(c.Args) == 0 || fsSem(r, c.Args[0]) != "di" {
-					sameKey = false
-				}
-			}
-			if fsIsCall(c, "nextQid", "Add") && len(c.Args) == 1 {
-				if v, err := fsEvalNum(r, lenv, c.Args[0]); err == nil {
-					addDelta = v
-				}
-			}
-			return true
-		})
+		return true
+	})
+	if statVar != "" {
+		c.roles[statVar] = "stat"
 	}
-	o.boolean("fs_fallback_key_is_value", keyIsValue && sameKey)
+	if keyVar != "" {
+		c.roles[keyVar] = "key"
+		if cl, ok := fsDefOf(lq.Body, keyVar).(*ast.CompositeLit); ok {
+			var fs []string
+			for _, e := range cl.Elts {
+				fs = append(fs, c.sem(e))
+			}
+			keyFields = strings.Join(fs, ", ")
+		}
+	}
+	addDelta := ""
+	sameKey := keyVar != ""
+	loads, stores := 0, 0
+	ast.Inspect(lq.Body, func(x ast.Node) bool {
+		e, ok := x.(ast.Expr)
+		if !ok {
+			return true
+		}
+		if call, ok := fsPkgCall(e, "qids.Load"); ok {
+			loads++
+			if len(call.Args) != 1 || fsText(call.Args[0]) != keyVar {
+				sameKey = false
+			}
+		}
+		if call, ok := fsPkgCall(e, "qids.LoadOrStore"); ok {
+			stores++
+			if len(call.Args) != 2 || fsText(call.Args[0]) != keyVar {
+				sameKey = false
+			}
+		}
+		if call, ok := fsPkgCall(e, "nextQid.Add"); ok && len(call.Args) == 1 {
+			if v, err := fsEvalNum(r, lenv, call.Args[0]); err == nil {
+				addDelta = v
+			}
+		}
+		if call, ok := fsPkgCall(e, "encodeLikely"); ok {
+			var as []string
+			for _, a := range call.Args {
+				as = append(as, c.sem(a))
+			}
+			encArgs = strings.Join(as, ", ")
+		}
+		return true
+	})
+	o.boolean("fs_fallback_key_is_value", sameKey && loads == 1 && stores == 1)
 	o.str("fs_fallback_key_fields", keyFields)
+	o.str("fs_fallback_encode_args", encArgs)
 	if addDelta == "" {
 		return "", r.Refuse(lq.Pos(), "localToQid: nextQid.Add(K) not found")
 	}
 	o.num("fs_fallback_add_delta", addDelta)
-	o.strs("fs_localToQid_body", lst)
+	var lst []string
+	for _, st := range lq.Body.List {
+		lst = append(lst, c.text(st))
+	}
+	o.strs("fs_localToQid_body", lst) // locals under alpha.go's positional names
 	ini, err := fsFuncIn(r, "fsimpl/localfs", "system_unix.go", "init")
 	if err != nil {
 		return "", err
 	}
 	store := ""
 	ast.Inspect(ini.Body, func(x ast.Node) bool {
-		if c, ok := x.(*ast.CallExpr); ok && fsIsCall(c, "nextQid", "Store") && len(c.Args) == 1 {
-			if v, err := fsEvalNum(r, lenv, c.Args[0]); err == nil {
-				store = v
+		if e, ok := x.(ast.Expr); ok {
+			if call, ok := fsPkgCall(e, "nextQid.Store"); ok && len(call.Args) == 1 {
+				if v, err := fsEvalNum(r, lenv, call.Args[0]); err == nil {
+					store = v
+				}
 			}
 		}
 		return true
@@ -749,6 +1357,266 @@ func genFs20(r *Repo) (string, error) {
 		return "", r.Refuse(ini.Pos(), "init: nextQid.Store(K) not found")
 	}
 	o.num("fs_nextQid_init", store)
+
+	// ---------------- p9 mode conversions as decision tables ----------------
+	o.comment("p9/p9.go ModeFromOS: permission part; (os bits tested, p9 bits added) in order; default; then the independent flag tests")
+	penv, _, err := collectConsts(r, "p9")
+	if err != nil {
+		return "", err
+	}
+	preds, err := fsP9Preds(r, penv)
+	if err != nil {
+		return "", err
+	}
+	mf, err := fsFunc(r, "p9", "ModeFromOS")
+	if err != nil {
+		return "", err
+	}
+	c = newFsCtx(r, mf)
+	c.params("", "mode")
+	pv := ""
+	for _, f := range mf.Type.Params.List {
+		for _, n := range f.Names {
+			pv = n.Name
+		}
+	}
+	var mcases, mflags [][2]string
+	mdefault, mperm, mres := "", "", ""
+	for _, st := range mf.Body.List {
+		switch s := st.(type) {
+		case *ast.AssignStmt:
+			if s.Tok == token.DEFINE && len(s.Rhs) == 1 && mres == "" {
+				mres = fsText(s.Lhs[0])
+				mperm = c.sem(stripConv(s.Rhs[0]))
+				continue
+			}
+			return "", r.Refuse(st.Pos(), "ModeFromOS: %s", c.text(s))
+		case *ast.SwitchStmt:
+			if s.Tag != nil || s.Init != nil {
+				return "", r.Refuse(st.Pos(), "ModeFromOS: expected a tagless switch")
+			}
+			for _, cc := range s.Body.List {
+				cl := cc.(*ast.CaseClause)
+				e := fsOrAssigned(cl.Body, mres)
+				if e == nil {
+					return "", r.Refuse(cl.Pos(), "ModeFromOS: case body must be `m |= ModeX`")
+				}
+				v, err := fsEvalNum(r, penv, e)
+				if err != nil {
+					return "", err
+				}
+				if cl.List == nil {
+					mdefault = v
+					continue
+				}
+				if len(cl.List) != 1 {
+					return "", r.Refuse(cl.Pos(), "ModeFromOS: one condition per case")
+				}
+				bits, err := fsOsTest(r, cl.List[0], pv)
+				if err != nil {
+					return "", err
+				}
+				mcases = append(mcases, [2]string{fmt.Sprint(bits), v})
+			}
+		case *ast.IfStmt:
+			e := fsOrAssigned(s.Body.List, mres)
+			if e == nil || s.Else != nil || s.Init != nil {
+				return "", r.Refuse(st.Pos(), "ModeFromOS: flag test must be `if mode&os.ModeX != 0 { m |= X }`")
+			}
+			v, err := fsEvalNum(r, penv, e)
+			if err != nil {
+				return "", err
+			}
+			bits, err := fsOsTest(r, s.Cond, pv)
+			if err != nil {
+				return "", err
+			}
+			mflags = append(mflags, [2]string{fmt.Sprint(bits), v})
+		case *ast.ReturnStmt:
+			if len(s.Results) != 1 || fsText(s.Results[0]) != mres {
+				return "", r.Refuse(st.Pos(), "ModeFromOS: must return the accumulated mode")
+			}
+		default:
+			return "", r.Refuse(st.Pos(), "ModeFromOS: statement kind %T", st)
+		}
+	}
+	if mdefault == "" {
+		return "", r.Refuse(mf.Pos(), "ModeFromOS: switch without default")
+	}
+	o.str("fs_mfo_perm", mperm)
+	o.pairs("fs_mfo_cases", mcases)
+	o.num("fs_mfo_default", mdefault)
+	o.pairs("fs_mfo_flags", mflags)
+
+	o.comment("p9/p9.go FileMode.OSMode: permission mask; (p9 type value, os bits added) in order; then (p9 flag bit, os bit)")
+	om, err := fsFunc(r, "p9", "FileMode.OSMode")
+	if err != nil {
+		return "", err
+	}
+	c = newFsCtx(r, om)
+	c.params("m")
+	rv := ""
+	for _, f := range om.Recv.List {
+		for _, n := range f.Names {
+			rv = n.Name
+		}
+	}
+	var ocases, oflags [][2]string
+	omask, ores := "", ""
+	for _, st := range om.Body.List {
+		switch s := st.(type) {
+		case *ast.DeclStmt:
+			gd, ok := s.Decl.(*ast.GenDecl)
+			if !ok || len(gd.Specs) != 1 || len(gd.Specs[0].(*ast.ValueSpec).Values) != 0 {
+				return "", r.Refuse(st.Pos(), "OSMode: %s", c.text(s))
+			}
+			ores = gd.Specs[0].(*ast.ValueSpec).Names[0].Name
+		case *ast.AssignStmt:
+			if s.Tok == token.OR_ASSIGN && fsText(s.Lhs[0]) == ores && omask == "" { // osMode |= os.FileMode(m & AllPermissions)
+				b, ok := fsUnparen(stripConv(s.Rhs[0])).(*ast.BinaryExpr)
+				if ok && b.Op == token.AND && fsText(fsUnparen(b.X)) == rv {
+					if v, err := fsEvalNum(r, penv, b.Y); err == nil {
+						omask = v
+						continue
+					}
+				}
+			}
+			return "", r.Refuse(st.Pos(), "OSMode: %s", c.text(s))
+		case *ast.SwitchStmt:
+			if s.Tag != nil || s.Init != nil {
+				return "", r.Refuse(st.Pos(), "OSMode: expected a tagless switch")
+			}
+			for _, cc := range s.Body.List {
+				cl := cc.(*ast.CaseClause)
+				if len(cl.List) != 1 {
+					return "", r.Refuse(cl.Pos(), "OSMode: one predicate per case, no default")
+				}
+				call, ok := cl.List[0].(*ast.CallExpr)
+				if !ok {
+					return "", r.Refuse(cl.Pos(), "OSMode: case must be m.IsX()")
+				}
+				sel, ok := call.Fun.(*ast.SelectorExpr)
+				if !ok || fsText(sel.X) != rv || preds[sel.Sel.Name] == "" {
+					return "", r.Refuse(cl.Pos(), "OSMode: case must be m.IsX() with IsX defined as m&FileModeMask == ModeX")
+				}
+				e := fsOrAssigned(cl.Body, ores)
+				if e == nil {
+					return "", r.Refuse(cl.Pos(), "OSMode: case body must be `osMode |= os.ModeX`")
+				}
+				bits, err := fsOsBits(r, e)
+				if err != nil {
+					return "", err
+				}
+				ocases = append(ocases, [2]string{preds[sel.Sel.Name], fmt.Sprint(bits)})
+			}
+		case *ast.IfStmt:
+			e := fsOrAssigned(s.Body.List, ores)
+			if e == nil || s.Else != nil || s.Init != nil {
+				return "", r.Refuse(st.Pos(), "OSMode: flag test must be `if m&X != 0 { osMode |= os.ModeX }`")
+			}
+			bits, err := fsOsBits(r, e)
+			if err != nil {
+				return "", err
+			}
+			b, ok := fsUnparen(s.Cond).(*ast.BinaryExpr)
+			if !ok || b.Op != token.NEQ || c.sem(b.Y) != "0" {
+				return "", r.Refuse(st.Pos(), "OSMode: flag test condition")
+			}
+			a, ok := fsUnparen(b.X).(*ast.BinaryExpr)
+			if !ok || a.Op != token.AND || fsText(fsUnparen(a.X)) != rv {
+				return "", r.Refuse(st.Pos(), "OSMode: flag test condition")
+			}
+			v, err := fsEvalNum(r, penv, a.Y)
+			if err != nil {
+				return "", err
+			}
+			oflags = append(oflags, [2]string{v, fmt.Sprint(bits)})
+		case *ast.ReturnStmt:
+			if len(s.Results) != 1 || fsText(s.Results[0]) != ores {
+				return "", r.Refuse(st.Pos(), "OSMode: must return the accumulated mode")
+			}
+		default:
+			return "", r.Refuse(st.Pos(), "OSMode: statement kind %T", st)
+		}
+	}
+	o.num("fs_osm_perm_mask", omask)
+	o.pairs("fs_osm_cases", ocases)
+	o.pairs("fs_osm_flags", oflags)
+
+	o.comment("p9/p9.go FileMode.QIDType: (p9 type value, QID type) for every predicate of every case, in order; default")
+	qt, err := fsFunc(r, "p9", "FileMode.QIDType")
+	if err != nil {
+		return "", err
+	}
+	qrv := ""
+	for _, f := range qt.Recv.List {
+		for _, n := range f.Names {
+			qrv = n.Name
+		}
+	}
+	var qcases [][2]string
+	qdefault := ""
+	if len(qt.Body.List) != 1 {
+		return "", r.Refuse(qt.Pos(), "QIDType: expected a single switch")
+	}
+	sw, ok := qt.Body.List[0].(*ast.SwitchStmt)
+	if !ok || sw.Tag != nil {
+		return "", r.Refuse(qt.Pos(), "QIDType: expected a tagless switch")
+	}
+	for _, cc := range sw.Body.List {
+		cl := cc.(*ast.CaseClause)
+		if len(cl.Body) != 1 {
+			return "", r.Refuse(cl.Pos(), "QIDType: case body must be a return")
+		}
+		ret, ok := cl.Body[0].(*ast.ReturnStmt)
+		if !ok || len(ret.Results) != 1 {
+			return "", r.Refuse(cl.Pos(), "QIDType: case body must be a return")
+		}
+		v, err := fsEvalNum(r, penv, ret.Results[0])
+		if err != nil {
+			return "", err
+		}
+		if cl.List == nil {
+			qdefault = v
+			continue
+		}
+		for _, e := range cl.List {
+			call, ok := e.(*ast.CallExpr)
+			if !ok {
+				return "", r.Refuse(e.Pos(), "QIDType: case must be m.IsX()")
+			}
+			sel, ok := call.Fun.(*ast.SelectorExpr)
+			if !ok || fsText(sel.X) != qrv || preds[sel.Sel.Name] == "" {
+				return "", r.Refuse(e.Pos(), "QIDType: case must be m.IsX()")
+			}
+			qcases = append(qcases, [2]string{preds[sel.Sel.Name], v})
+		}
+	}
+	if qdefault == "" {
+		return "", r.Refuse(qt.Pos(), "QIDType: switch without default")
+	}
+	o.pairs("fs_qt_cases", qcases)
+	o.num("fs_qt_default", qdefault)
+	ft, err := fsFunc(r, "p9", "FileMode.FileType")
+	if err != nil {
+		return "", err
+	}
+	c = newFsCtx(r, ft)
+	c.params("m")
+	ftm := ""
+	if len(ft.Body.List) == 1 {
+		if ret, ok := ft.Body.List[0].(*ast.ReturnStmt); ok && len(ret.Results) == 1 {
+			if b, ok := fsUnparen(ret.Results[0]).(*ast.BinaryExpr); ok && b.Op == token.AND && c.sem(b.X) == "m" {
+				if v, err := fsEvalNum(r, penv, b.Y); err == nil {
+					ftm = v
+				}
+			}
+		}
+	}
+	if ftm == "" {
+		return "", r.Refuse(ft.Pos(), "FileType: expected `return m & FileModeMask`")
+	}
+	o.num("fs_filetype_mask", ftm)
 	return o.b.String(), nil
 }
 
